@@ -80,6 +80,8 @@ type World struct {
 	// ReadFault, if set, decides whether a LogStore.GetLog call fails (called
 	// under Mu, only for call sites where raft handles a read error).
 	ReadFault func(in *Instance, site string, index uint64) bool
+	// StableReadFault, if set, decides whether a StableStore read fails (called under Mu)
+	StableReadFault func(in *Instance, key string) bool
 	// ReadFaultActive is the cheap pre-check (is any read fault armed for this server now?)
 	ReadFaultActive func(in *Instance) bool
 
